@@ -11,7 +11,8 @@ shutdown happens — `shutdown` is one more event of the list, so theorems over 
 of the GOAWAY relative to the HEADERS / DATA frames of a request.
 
 Regenerated (`Gen.H2GoAway`): the guard under which `processData` drops a DATA frame and `processHeaders` ignores a
-HEADERS frame (over inGoAway, goAwayCode, the stream id and maxClientStreamID), the stale-id test, the code of the
+HEADERS frame and `processResetStream` discards an RST_STREAM frame (over inGoAway, goAwayCode, the stream id and
+maxClientStreamID), the stale-id test, the code of the
 graceful GOAWAY, the error codes.  Hand-modelled from the source: the stream-state checks of `processData`
 (idle ⇒ PROTOCOL_ERROR connection error; closed / half-closed ⇒ STREAM_CLOSED stream error; more than the declared
 content-length ⇒ STREAM_CLOSED), trailers, the error handling of `HandleFrame` (stream error ⇒ RST_STREAM if the stream
@@ -122,6 +123,7 @@ def stepWith (discard : Rule) (c : Conn) : Ev → Conn × List Out
          if es then [Out.deliver id (st.body + len)] else [])
   | .rst id =>
     if c.dead then (c, []) else
+    if rstDiscarded c.inGoAway c.code id c.maxId then (c, []) else
     match getS c id with
     | some _ => (delS c id, [])
     | none =>
